@@ -37,6 +37,18 @@ def gen(rng, tier, index):
         ops.append(["line_at_save", "255;255;3;0;3;"])
         ops.append(["restart"])
         ops.append(["line", "255;255;3;0;3;"])
+    if cfg["persistence"] and rng.random() < 0.1:
+        cfg["no_callback"] = True
+    if cfg["persistence"] and rng.random() < 0.2:
+        # ids handed out, then one scheduled save fails with a transient error, no further change, clean stop
+        ops.append(["line", "255;255;3;0;3;"])
+        ops.append(["fault_tick", rng.choice(["write", "fsync", "rename", "rename", "remove"]), rng.choice(["EIO", "EACCES", "ENOSPC"])])
+        ops.append(["restart"])
+        ops.append(["line", "255;255;3;0;3;"])
+    elif cfg["persistence"] and rng.random() < 0.2:
+        # an id request arrives at the moment stop() has written its final save
+        ops.append(["restart", {"late_line": "255;255;3;0;3;"}])
+        ops.append(["line", "255;255;3;0;3;"])
     if "restart" not in [o[0] for o in ops]:
         ops.insert(rng.randrange(len(ops) // 2, len(ops)), ["restart"])
         ops.append(["line", "255;255;3;0;3;"])
